@@ -65,6 +65,12 @@ theorem route_is_loop_erased_chain (chain : List Nat) :
 
 example : routeOfChain 6 [0, 3, 2, 1, 3, 9] = [0, 3, 9] := by decide
 
+/-- The variant `searchSt` the driver uses to read PENDING's size and the time-stamp counter at the goal
+    (compared with the optional library hook) is the same search: what it returns is what `search` finds. -/
+theorem searchSt_is_search (P : Problem) (fuel : Nat) (st : St) (b : Node) (st' : St)
+    (h : searchSt P fuel st = some (b, st')) : search P fuel st = .found b st'.done :=
+  Lemmas.AStarSound.searchSt_found P fuel st b st' h
+
 /-- **Optimality under consistency** (exact comparator, eps = 0).  `H` = the heuristic as a function
     of the state; `Legit` = any set of states closed under the successor relation that contains the
     start state (hypotheses are only needed there); `bonus v ≥ 0` = what the last hop out of `v` into
